@@ -24,9 +24,49 @@ GEN = MG + '::generate_moves'
 OPP = 'chess::board::color::Color::opposite'
 
 
+def discover_inner(ctx):
+    """the sequential counting routine = the directly recursive function the parallel root's tasks call (free function or method,
+    whatever its name)"""
+    global INNER
+    facts = ctx.facts
+    if INNER in facts.fns:
+        return True
+    roots = [c.name for c in facts.closures_of(OUTER)] + [OUTER]
+    reach = facts.reachable_fns(roots, stop={'chess::move_generator::MoveGenerator::generate_moves'})
+    cands = [n for n in reach if n in facts.fns and facts.fns[n].crate == 'chess' and n != OUTER and facts.fns[n].kind != 'Closure'
+             and n in facts.callees_of(facts.fns[n])]
+    if len(cands) != 1:
+        ctx.anchor_missing('C10.anchor', 'count_positions_inner', 'expected one directly recursive counting routine below count_positions, found %s' % sorted(cands))
+        return False
+    INNER = cands[0]
+    return True
+
+
+def inner_roles(facts):
+    """parameter positions of the sequential routine by type: depth (u8), board (&mut Board), colour (Color), generator (&mut MoveGenerator)"""
+    f = facts.need_fn(INNER)
+    roles = {}
+    for i in range(1, f.arg_count + 1):
+        ty = f.local_ty(i)
+        if ty == 'u8':
+            roles['D'] = i
+        elif ty.endswith('chess::board::Board') and ty.startswith('&'):
+            roles['B'] = i
+        elif ty.endswith('color::Color'):
+            roles['C'] = i
+        elif ty.endswith('MoveGenerator') and ty.startswith('&'):
+            roles['G'] = i
+    return roles if len(roles) == 4 else None
+
+
 def r1_inner(ctx):
     rule = 'C10.R1-recurrence'
     facts = ctx.facts
+    R = inner_roles(facts)
+    if R is None:
+        ctx.anchor_missing(rule, INNER, 'parameters (depth: u8, board: &mut Board, colour: Color, generator: &mut MoveGenerator) not found')
+        return
+    PD, PB, PC, PG = ('p', R['D']), ('p', R['B']), ('p', R['C']), ('p', R['G'])
     opaque = {n for n in facts.fns if n.startswith(MG)} | {n for n in facts.fns if n.startswith(CHESSMOVE)} | {INNER}
     outs = Engine(facts, opaque=opaque - {INNER}, inline_filter=lambda n, c: n != INNER).run(INNER)
     ctx.touch(INNER)
@@ -35,10 +75,10 @@ def r1_inner(ctx):
 
     def depth_holds(o, d):
         for a, v in o.conds:
-            if not any(x == ('p', 1) for x in subterms(a)):
+            if not any(x == PD for x in subterms(a)):
                 continue
             try:
-                x = ev(a, {('p', 1): d})
+                x = ev(a, {PD: d})
             except Unevaluable:
                 return None
             if isinstance(v, tuple) and v[0] == 'not':
@@ -52,7 +92,7 @@ def r1_inner(ctx):
     okb = False
     if len(base) == 1 and len(noloop) == 1 and not any(depth_holds(base[0], d) for d in (1, 2, 5, 255)):
         v = base[0].value
-        okb = v[0] == 'call' and v[1].endswith('::len') and any(s[0] == 'call' and s[1] == GEN and s[2][2] == ('p', 3) and s[2][1] == ('ref', ('der', ('p', 2)))
+        okb = v[0] == 'call' and v[1].endswith('::len') and any(s[0] == 'call' and s[1] == GEN and s[2][2] == PC and s[2][1] == ('ref', ('der', PB))
                                                                for s in subterms(v))
     ctx.ob(rule, INNER, 'depth == 0 returns the number of legal moves of (board, color)', okb, found=show(base[0].value) if base else None,
            expected='generate_moves(board, color).len()', why='the base of the sum is the number of legal moves of the position')
@@ -63,16 +103,16 @@ def r1_inner(ctx):
         calls = [e for e in o.events if e[0] == 'call' and (e[1] in (INNER,) or e[1].startswith(CHESSMOVE))]
         names = [e[1].rsplit('::', 1)[-1] for e in calls]
         rec = [e for e in calls if e[1] == INNER]
-        if names != ['apply', 'count_positions_inner', 'undo'] or len(rec) != 1:
+        if names != ['apply', INNER.rsplit('::', 1)[-1], 'undo'] or len(rec) != 1:
             okstep = False
             continue
         a = rec[0][2]
-        okstep = okstep and a[0] == ('bin', 'Sub', ('p', 1), C(1)) and a[1] == ('ref', ('der', ('p', 2))) and \
-            a[2] == ('call', OPP, (('p', 3),), None) and a[3] == ('ref', ('der', ('p', 4)))
+        okstep = okstep and a[R['D'] - 1] == ('bin', 'Sub', PD, C(1)) and a[R['B'] - 1] == ('ref', ('der', PB)) and \
+            a[R['C'] - 1] == ('call', OPP, (PC,), None) and a[R['G'] - 1] == ('ref', ('der', PG))
         # applied move = current iterator element, undone the same
         ap = [e for e in calls if e[1].endswith('::apply')][0]
         un = [e for e in calls if e[1].endswith('::undo')][0]
-        okstep = okstep and ap[2][0] == un[2][0] and ap[2][1] == ('ref', ('der', ('p', 2)))
+        okstep = okstep and ap[2][0] == un[2][0] and ap[2][1] == ('ref', ('der', PB))
         # accumulation
         head = [e for e in o.events if e[0] == 'loop_head'][0]
         child = ('call', INNER, rec[0][2], rec[0][3])
@@ -157,14 +197,15 @@ def r2_outer(ctx):
             rec = [e for e in calls if e[1] == INNER]
             detail = names
             ok1 = False
-            if len(rec) == 1 and 'apply' in names and names.index('apply') < names.index('count_positions_inner') and 'new' in names:
+            if len(rec) == 1 and 'apply' in names and names.index('apply') < names.index(INNER.rsplit('::', 1)[-1]) and 'new' in names:
                 a = tuple(subst_upvars(x, snaps) for x in rec[0][2])
-                d_ok = a[0] == ('bin', 'Sub', ('p', 2), C(1))
-                board_local = a[1][0] == 'ref' and a[1][1][0] == 'L'
-                col_ok = a[2] == ('call', OPP, (('p', 4),), None)
-                gen_local = a[3][0] == 'ref' and a[3][1][0] == 'L'
+                R = inner_roles(facts) or {'D': 1, 'B': 2, 'C': 3, 'G': 4}
+                d_ok = a[R['D'] - 1] == ('bin', 'Sub', ('p', 2), C(1))
+                board_local = a[R['B'] - 1][0] == 'ref' and a[R['B'] - 1][1][0] == 'L'
+                col_ok = a[R['C'] - 1] == ('call', OPP, (('p', 4),), None)
+                gen_local = a[R['G'] - 1][0] == 'ref' and a[R['G'] - 1][1][0] == 'L'
                 ap = [e for e in calls if e[1].endswith('::apply')][0]
-                ok1 = d_ok and board_local and col_ok and gen_local and strip_refs_t(ap[2][0]) == ('p', 2) and ap[2][1] == rec[0][2][1] and \
+                ok1 = d_ok and board_local and col_ok and gen_local and strip_refs_t(ap[2][0]) == ('p', 2) and ap[2][1] == rec[0][2][R['B'] - 1] and \
                     o.value == ('call', INNER, rec[0][2], rec[0][3])
             okc = okc and ok1
     ctx.ob(rule, clo, 'task: clone board; apply; inner(depth-1, clone, next_player, fresh generator)', okc, found=detail,
@@ -227,6 +268,8 @@ def r3_driver(ctx):
 
 
 def run(ctx):
+    if not discover_inner(ctx):
+        return
     r1_inner(ctx)
     r2_outer(ctx)
     r3_driver(ctx)
